@@ -279,7 +279,7 @@ fn cfg_string(st: &BrotliEncoderStateStruct<StandardAlloc>) -> String {
     let p = &st.params;
     let rb = &st.ringbuffer_;
     format!(
-        "{},{},{},{},{},{},{},{},{},{},{},{},{}",
+        "{},{},{},{},{},{},{},{},{},{},{},{},{},{}",
         p.quality,
         p.lgwin,
         p.lgblock,
@@ -292,7 +292,8 @@ fn cfg_string(st: &BrotliEncoderStateStruct<StandardAlloc>) -> String {
         rb.tail_size_,
         rb.total_size_,
         rb.pos_,
-        p.hasher.type_
+        p.hasher.type_,
+        p.size_hint
     )
 }
 
@@ -469,14 +470,18 @@ fn run_c(toks: &[&str]) -> String {
 }
 
 fn run_b(toks: &[&str]) -> String {
-    // B <lgwin> <lgblock> <q> <n1,n2,..>
+    // B <lgwin> <lgblock> <q> <n1,n2,..> <data hex>
+    use alloc_no_stdlib::SliceWrapper;
     let mut e = RustEnc::new(StandardAlloc::default());
-    e.set_param(2, toks[1].parse::<i64>().unwrap() as u32);
+    let lgwin = toks[1].parse::<i64>().unwrap();
+    if lgwin > 24 {
+        e.set_param(6, 1);
+    }
+    e.set_param(2, lgwin as u32);
     e.set_param(3, toks[2].parse::<i64>().unwrap() as u32);
     e.set_param(1, toks[3].parse::<i64>().unwrap() as u32);
     let sizes: Vec<usize> = toks[4].split(',').filter(|x| !x.is_empty()).map(|x| x.parse().unwrap()).collect();
-    let total: usize = sizes.iter().sum();
-    let data = gen_data("rand", total, 99);
+    let data = unhex(toks.get(5).copied().unwrap_or("-"));
     let mut cur = 0usize;
     let mut verdict = "ok".to_string();
     for n in sizes {
@@ -489,7 +494,15 @@ fn run_b(toks: &[&str]) -> String {
         }
     }
     let rb = &e.st.ringbuffer_;
-    format!("rb={} pos={} mask={} cur={} size={} tail={}", verdict, rb.pos_, rb.mask_, rb.cur_size_, rb.size_, rb.tail_size_)
+    let mut h = 0u64;
+    if !rb.data_mo.slice().is_empty() {
+        let span = cur.min(rb.size_ as usize);
+        let buf = rb.data_mo.slice();
+        for p in (cur - span)..cur {
+            h = hmix(h, buf[rb.buffer_index + (p & rb.mask_ as usize)] as u64);
+        }
+    }
+    format!("rb={} pos={} mask={} cur={} size={} tail={} chk={}", verdict, rb.pos_, rb.mask_, rb.cur_size_, rb.size_, rb.tail_size_, h)
 }
 
 // ---------------------------------------------------------------------------------- G
